@@ -207,15 +207,20 @@ def string_replace_map(line, lower=False):
 
     items = []
     expr_keys = []
+    # Parenthesised expressions have their own reverse map: the text of
+    # a string constant or a real constant may be identical to a
+    # parenthesised expression (e.g. '(a+b)' and (a+b)) but the key of
+    # the former stands for the text *without* the parentheses.
+    rev_parens_map = {}
     for item in splitparen(newline):
         if isinstance(item, ParenString) and not _is_name(item[1:-1].strip()):
-            key = rev_string_map.get(item)
+            key = rev_parens_map.get(item)
             if key is None:
                 parens_idx += 1
                 key = "F2PY_EXPR_TUPLE_{0}".format(parens_idx)
                 trimmed = item[1:-1].strip()
                 string_map[key] = trimmed
-                rev_string_map[trimmed] = key
+                rev_parens_map[trimmed] = key
                 expr_keys.append(key)
             items.append(item[0] + key + item[-1])
         else:
